@@ -360,6 +360,10 @@ func (s *CaseSpec) canonical() string {
 func run(c *eng.Ctx) {
 	slog.SetDefault(slog.New(slog.NewTextHandler(io.Discard, nil))) // godi's default handlers log every error
 	l := mkLayout(c)
+	defer func() {
+		n := l.total
+		runSameRequestTwice(c, func() (int, bool) { i := n; n++; return i, c.Mine(i) })
+	}()
 	for idx := 0; idx < l.total; idx++ {
 		if !c.Mine(idx) {
 			continue
